@@ -492,6 +492,20 @@ pub fn reestablish<B: AsRef<[u32]> + AsMut<[u32]>>(dt: &mut DrawTarget<B>, shado
     dt.set_transform(&mat(&shadow.ctm));
 }
 
+/// Does the drawing call `op` panic all by itself - on a fresh, transparent target of the same size
+/// under the transform `ctm`, with no clip and no layer? (Geometry beyond the library's working
+/// range does, whatever state the target is in.)
+pub fn panics_on_plain_target(w: i32, h: i32, ctm: &Mat, op: &Op, budget: u64) -> bool {
+    guarded(budget, || {
+        let mut dt = DrawTarget::new(w, h);
+        dt.set_transform(&mat(ctm));
+        let mut sh = Shadow::new();
+        sh.ctm = *ctm;
+        apply_simple(&mut dt, &mut sh, op);
+    })
+    .is_err()
+}
+
 /// The drawing call `op` executed on a fresh target that holds `pixels` and the clip stack and
 /// transform of `shadow` (no layers), with one more clip on top: a clip *path* that covers the
 /// whole surface (a pixel-aligned rectangle reaching beyond it). Returns the resulting pixels.
